@@ -137,16 +137,43 @@ def run_shards(specs, nproc):
     shards = [(k, specs[k::nsh]) for k in range(nsh)]
     if nsh == 1:
         return [_shard(shards[0])]
-    with mp.get_context('fork').Pool(nsh) as pool:
-        return pool.map(_shard, shards)
+    from concurrent.futures.process import BrokenProcessPool
+    out = {}
+    for attempt in range(3):      # a worker killed from outside (OOM killer) breaks the pool: redo the missing shards
+        todo = [sh for sh in shards if sh[0] not in out]
+        if not todo:
+            break
+        try:
+            with cf.ProcessPoolExecutor(max_workers=len(todo), mp_context=mp.get_context('fork')) as ex:
+                futs = {ex.submit(_shard, sh): sh[0] for sh in todo}
+                for fu in cf.as_completed(futs):
+                    out[futs[fu]] = fu.result()
+        except BrokenProcessPool:
+            continue
+    if len(out) != len(shards):
+        raise common.Machinery('driver processes were killed repeatedly')
+    return [out[k] for k, _ in shards]
+
+
+def _retry(fn, tries=3):
+    """A TLC JVM killed from outside (SIGKILL, e.g. the kernel's OOM killer on a crowded machine) is retried; any other
+    failure, and a third kill, is a machinery failure as usual."""
+    for k in range(tries):
+        try:
+            return fn()
+        except common.Machinery as e:
+            if 'rc=-9' not in str(e) and 'rc=137' not in str(e) or k == tries - 1:
+                raise
+            import time
+            time.sleep(5 * (k + 1))
 
 
 def validate(ctx, results):
     out = []
 
     def one(r):
-        return r, ctx.validate(r['batch'], module='TemplateTrace', cfg='TemplateTrace', heap='3g')
-    with cf.ThreadPoolExecutor(max_workers=6) as ex:
+        return r, _retry(lambda: ctx.validate(r['batch'], module='TemplateTrace', cfg='TemplateTrace', heap='2g'))
+    with cf.ThreadPoolExecutor(max_workers=5) as ex:
         for r in ex.map(one, [r for r in results if r['batch']['traces']]):
             out.append(r)
     return out
@@ -219,9 +246,9 @@ def run(ctx):
 
     def model():
         try:
-            mc['r'] = ctx.model('TemplateMC', 'TemplateMC' if quick else 'TemplateMC_thorough',
-                                required=('Pick', 'Descend', 'SkipNode', 'Subst', 'LoopSubst', 'Stop'),
-                                workers=8 if quick else 12, heap='2g' if quick else '8g', timeout=3000)
+            mc['r'] = _retry(lambda: ctx.model('TemplateMC', 'TemplateMC' if quick else 'TemplateMC_thorough',
+                                               required=('Pick', 'Descend', 'SkipNode', 'Subst', 'LoopSubst', 'Stop'),
+                                               workers=8 if quick else 12, heap='2g' if quick else '8g', timeout=3000))
         except BaseException as e:  # noqa: BLE001
             mc['e'] = e
     th = threading.Thread(target=model)
@@ -284,7 +311,7 @@ def selftest(ctx):
     if 'error' in res:
         raise common.Machinery(res['error'])
     base = res['batch']
-    clean = ctx.validate(base, module='TemplateTrace', cfg='TemplateTrace', heap='3g')
+    clean = _retry(lambda: ctx.validate(base, module='TemplateTrace', cfg='TemplateTrace', heap='2g'))
     if any(v['bad'] for v in clean.values()):
         raise common.Machinery(f'selftest: uncorrupted traces rejected: {clean}')
 
@@ -321,7 +348,7 @@ def selftest(ctx):
               ('capture', c_capture, 3, {'Event.TemplateRel', 'Event.RefAgree'})]
     ok = True
     for name, fn, tid, clauses in expect:
-        verd = ctx.validate(corrupt(fn), module='TemplateTrace', cfg='TemplateTrace', heap='3g')
+        verd = _retry(lambda: ctx.validate(corrupt(fn), module='TemplateTrace', cfg='TemplateTrace', heap='2g'))
         got = {c for _, c, _ in verd[tid]['bad']}
         others = {t: v['bad'] for t, v in verd.items() if t != tid and v['bad']}
         good = clauses <= got and not others
